@@ -20,6 +20,9 @@ struct initparser {
 	   number of nested objects in initializer */
 	struct object obj[32], *cur, *sub;
 	struct init *init, **last;
+#ifdef CPROC_VERIF
+	int vid;  /* verification hook H5: identity of this parseinit invocation */
+#endif
 };
 
 struct init *
@@ -37,10 +40,53 @@ mkinit(unsigned long long start, unsigned long long end, struct bitfield bits, s
 	return init;
 }
 
+#ifdef CPROC_VERIF
+#include <stdio.h>
+/* verification hook H5: position p->last points at (number of list entries before it) */
+static int
+vlastindex(struct initparser *p)
+{
+	struct init **q;
+	int k;
+
+	for (k = 0, q = &p->init; q != p->last; q = &(*q)->next, ++k) {
+		if (!*q)
+			return -1;
+	}
+	return k;
+}
+
+/* verification hook H5: the new entry and the list after initadd linked it in */
+static void
+vinitadd(struct initparser *p, int last, struct init *new)
+{
+	static char buf[1 << 16];
+	char *s = buf, *e = buf + sizeof(buf) - 128;
+	struct init *i;
+	int n = 0, at = -1, trunc = 0;
+
+	buf[0] = '\0';
+	for (i = p->init; i; i = i->next, ++n) {
+		if (i == new)
+			at = n;
+		if (s < e)
+			s += snprintf(s, e - s, "%s[%llu,%llu,%d,%d]", n ? "," : "", i->start, i->end, i->bits.before, i->bits.after);
+		else
+			trunc = 1;
+	}
+	vtrace("{\"e\":\"initadd\",\"id\":%d,\"last\":%d,\"at\":%d,\"s\":%llu,\"end\":%llu,\"b\":%d,\"a\":%d,\"str\":%d,\"n\":%d,\"trunc\":%d,\"list\":[%s]}",
+		p->vid, last, at, new->start, new->end, new->bits.before, new->bits.after,
+		new->expr && new->expr->kind == EXPRSTRING, n, trunc, buf);
+}
+#endif
+
 static void
 initadd(struct initparser *p, struct init *new)
 {
 	struct init **init, *old;
+#ifdef CPROC_VERIF
+	int vlast = vlastindex(p);
+#endif
 
 	init = p->last;
 	for (; old = *init; init = &old->next) {
@@ -60,6 +106,9 @@ initadd(struct initparser *p, struct init *new)
 	new->next = old;
 	*init = new;
 	p->last = &new->next;
+#ifdef CPROC_VERIF
+	vinitadd(p, vlast, new);
+#endif
 }
 
 static void
@@ -206,6 +255,13 @@ parseinit(struct scope *s, struct type *t)
 	p.sub->iscur = false;
 	p.init = NULL;
 	p.last = &p.init;
+#ifdef CPROC_VERIF
+	{
+		static int vcount;
+		p.vid = ++vcount;
+		vtrace("{\"e\":\"initbegin\",\"id\":%d,\"array\":%d,\"incomplete\":%d}", p.vid, t->kind == TYPEARRAY, t->incomplete);
+	}
+#endif
 	if (t->incomplete && t->kind != TYPEARRAY)
 		error(&tok.loc, "initializer specified for incomplete type");
 	if (t->kind == TYPEARRAY && t->base->size == 0)
@@ -271,8 +327,12 @@ parseinit(struct scope *s, struct type *t)
 			if (p.sub->type->incomplete)
 				p.sub->type->incomplete = false;
 		next:
-			if (!p.cur)
+			if (!p.cur) {
+#ifdef CPROC_VERIF
+				vtrace("{\"e\":\"initdone\",\"id\":%d,\"tsize\":%llu,\"incomplete\":%d}", p.vid, p.obj[0].type->size, p.obj[0].type->incomplete);
+#endif
 				return p.init;
+			}
 			if (tok.kind == TCOMMA) {
 				next();
 				if (tok.kind != TRBRACE)
